@@ -12,816 +12,840 @@ Definition show_fres (r : fres) : string :=
   end.
 Definition check (rs : list rune) : string := digest (show_fres (format_res rs)).
 Definition full (rs : list rune) : string := show_fres (format_res rs).
-Eval vm_compute in ("<<<M1477>>>" ++ check (runes_of_ascii "
-options
+Eval vm_compute in ("<<<M1365>>>" ++ check (runes_of_ascii "// top
+options // c0a
+  // c0b
+{ // c1
+StringPrefixLenType // c2a
+  // c2b
+= // c3
+u8
+    // c4
+; // c5a
+  // c5b
+ArrayPrefixLenType // c6
+= // c7a
+  // c7b
+u8 // c8
+; // c9
+FixedStringPadFromLeft
+    // c10
+= // c11
+false ; // c13
+FixedStringPadChar
+    // c14
+= ' ' ; // c17a
+  // c17b
+}
+    // c18
+packet // c19
+Ack
+    // c20
+{
+    // c21
+char[]
+    // c22
+tag7
+    // c23
+, }
+    // c25
+packet Reject // c27a
+  // c27b
+{ InSym61 // c29a
+  // c29b
+{ // c30
+repeat // c31
+Ack , zchar[ // c34
+4 ] // c36a
+  // c36b
+f1 // c37a
+  // c37b
+, } // c39a
+  // c39b
+, } // c41
+packet // c42a
+  // c42b
+Logout {
+    // c44
+char[ // c45a
+  // c45b
+4 // c46a
+  // c46b
+] // c47a
+  // c47b
+clOrdID
+    // c48
+, // c49
+}
+    // c50
+root // c51
+packet // c52a
+  // c52b
+Cancel // c53a
+  // c53b
+{ @leftPad
+    // c55
+( // c56a
+  // c56b
+' ' // c57a
+  // c57b
+) char[ 10 // c60a
+  // c60b
+] price
+    // c62
+,
+    // c63
+u8 // c64
+x
+    // c65
+, u32 // c67a
+  // c67b
+venue // c68a
+  // c68b
+@lengthOf( // c69
+Body
+    // c70
+) , // c72
+match // c73a
+  // c73b
+x // c74a
+  // c74b
+as
+    // c75
+Body
+    // c76
+{
+    // c77
+[ // c78a
+  // c78b
+92 // c79
+, 175 // c81
+] : Logout , 26 :
+    // c87
+Reject // c88
+, // c89a
+  // c89b
+144
+    // c90
+: // c91
+Ack // c92a
+  // c92b
+, } // c94
+, // c95
+u16
+    // c96
+count // c97
+@calculatedFrom(
+    // c98
+""CRC32""
+    // c99
+) // c100
+, } ")).
+Eval vm_compute in ("<<<M1857>>>" ++ check (runes_of_ascii "packet _x {
+    leftPad `it's`,
+    match Logon as matchKey {
+        ""packet"" : stringy,
+        3 : u,
+        //
+        ""1"" : Pad,
+    },
+    float32 Z9_ @lengthOf(i8i8) `" ++ [233]%N ++ runes_of_ascii "`,
+    @tag(3)
+    match As as Pad {
+        """" : chars,
+        ""x y"" : i64_,
+    },
+    @calculatedFrom(""it's"")
+    @leftPad(' ')
+    zchar[0123456789] falsey,
+    match A as packetx {
+        [42] : matchKey,
+    },
+    @leftPad(' ')
+    match x as a1 {
+        ""packet"" : a1,
+        10 : pack,
+        ""{,}"" : u8x,
+        [007, 00] : trueish,
+        ""x y"" : pack,
+        """ ++ [233]%N ++ runes_of_ascii "t" ++ [233]%N ++ runes_of_ascii """ : matchKey,
+    },
+    @leftPad('0')
+    uint8x u,
+    zchar[3] u ``,
+    @rightPad(' ')
+    repeat _x ``,
+}
+
+MetaData Foo {
+    a1 Z9_,
+    options1 T,
+    u32 u8x `crlf
+        line`,
+    metadata falsey,
+    lengthOf x_y_z,
+}
+
+packet calculatedFrom {
+    @tag(3)
+    string A,
+    match leftPad as a1 {
+        //	t
+        0123456789 : calculatedFrom,
+    },
+    match crc as body {
+        00 : _x,
+    },
+    o @calculatedFrom(""x y""),
+}
+
+packet T {
+}
+
+packet Logon {
+    @leftPad('\x00')
+    As @calculatedFrom(""a	b"") `line1
+        line2`,
+    pack lengthOf,
+}// `tick` ""quote"" 'q'")).
+Eval vm_compute in ("<<<M1696>>>" ++ check (runes_of_ascii "  options
+
+{FixedStringPadFromLeft
+=	true ;
+FixedStringPadChar 
+=
+'0' ; }packet Leg
+{	InPrice0{
+    repeat	string clOrdID
+
+    ,  int16 msgKind
+, zchar[
+5 ]
+	Px 
+, }, i16  f1
+, repeat
+    f64
+
+    Side2 ,
+
+    string Acct,	}	packet Cancel
+
 {
 
-    StringPrefixLenType  =  u16 
-; ArrayPrefixLenType =
-u16 ; 
-}
+    zchar[4 ] 
+clOrdID
+,
+	string seqNo ,
+
+    Leg ,
+
+@leftPad 
+(
+    '0'
+	)char[11
+
+    ] OrderId
+
+    , }  packet
+    Quote
+{ repeat	char[ 4]
+
+    sym
+	,
+	f64
+OrderId
+,
+repeat Leg
+
+    ,repeat
+
+i64  f1
+	,  int16
+
+Note, zchar[ 3
+    ] count 
+,  }
+root 
 packet
-SampleBinary
+Ack	{
 
-    { 
-uint16 MsgType`" ++ [28040; 24687; 31867; 22411]%N ++ runes_of_ascii "`, 
-u16
-BodyLenght @lengthOf(
-	Body	)	`" ++ [28040; 24687; 20307; 38271; 24230]%N ++ runes_of_ascii "` ,	match
+    @leftPad
 
-    MsgType
-as Body
-	{
-1:
-Logon
-, 2
-    :Logout
-    ,
-3	:
-    Heartbeat  ,4: 
-RiskControlRequest
+(
+
+    ' '
+)
+char[ 10
+    ] sym
+
+    , InPx60 {	Cancel	,
+	repeat char[
+1
+
+]
+
+f1
+
 ,
-	5
+string
+Tail,
+    repeat
 
-    :RiskControlResponse
+InNote55	{
+int8 
+count	,f64 f1
+
+,repeat
+
+    Cancel  ,
+	}
 ,
+char[]	tag7	,
+    repeat string
 
-    }
-    ,
-@calculatedFrom( ""CRC32""
+msgKind
+    ,}
+,u8 lastPx ,
+    match
+	lastPx
+    as 
+Body
+{
+    152 
+:  Quote  ,
 
-    )
-    u32
-Ckecksum
-	`" ++ [26657; 39564; 21644]%N ++ runes_of_ascii "`  ,
+    173
+:
+    Cancel  ,4
+	: 
+Leg ,
+} ,
+	u16
+
+    Ref @calculatedFrom( ""CR\
+C32"")  ,  }
+")).
+Eval vm_compute in ("<<<M28>>>" ++ check (runes_of_ascii "options
+    { string_
+= false
+    ; falsey  = char[// " ++ [128512]%N ++ runes_of_ascii " emoji
+4294967296 ] ; } packet
+    zchar{match float as len { [ """ ++ [233]%N ++ runes_of_ascii "t" ++ [233]%N ++ runes_of_ascii """ ]:
+matchKey
+    , 3 : // " ++ [27880; 37322]%N ++ runes_of_ascii "
+u [ 4294967296
+, ""1"" ] :
+// `tick` ""quote"" 'q'
+// c
+zchar , } // c
+,} MetaData
+    // @lengthOf(
+    T {
+// c
+// a // b
+}	packet packetx  { uint16 uint8x @calculatedFrom( ""it's"" ) ,
+stringy { i16 crc
+`{ , }`	, }
+, zchar[ 00
+] x
+,
+    zchar{ uint64 tag , zchar
+f32a	`say ""hi""` , uint32 A `{ , }` , match _x as
+falsey
+{ [ 007// " ++ [128512]%N ++ runes_of_ascii " emoji
+,
+    """ ++ [128512]%N ++ runes_of_ascii """] :
+    matchKey// " ++ [128512]%N ++ runes_of_ascii " emoji
+[ 0123456789,3 ] : T
+// " ++ [128512]%N ++ runes_of_ascii " emoji
+// `tick` ""quote"" 'q'
+1: Foo ,
 }
+    ,// trailing space 
+} ,A ,
+    zchar[
+    // packet A { u8 x, }
+    4294967296 ] string_ @lengthOf( float ) ,match rootA as As
+    { [ ""it's"",
+255 , 0123456789 ,
+// packet A { u8 x, }
+//	t
+""" ++ [233]%N ++ runes_of_ascii "t" ++ [233]%N ++ runes_of_ascii """	, ""{,}"" ,	""abc""
+    , """ ++ [233]%N ++ runes_of_ascii "t" ++ [233]%N ++ runes_of_ascii """]:int, 4294967296 : tag , } , }
+")).
+Eval vm_compute in ("<<<M1380>>>" ++ check (runes_of_ascii "// top
+options // c0
+{ // c1
+LittleEndian = true
+    // c4
+;
+    // c5
+}
+    // c6
+packet // c7
+Logon
+    // c8
+{ // c9a
+  // c9b
+u8 // c10
+x // c11
+,
+    // c12
+string
+    // c13
+user
+    // c14
+,
+    // c15
+} // c16
+packet // c17
+Logout {
+    // c19
+u16 // c20a
+  // c20b
+reason // c21a
+  // c21b
+, // c22
+}
+    // c23
+packet
+    // c24
+Empty { // c26a
+  // c26b
+}
+    // c27
+root // c28
+packet
+    // c29
+Frame // c30
+{ // c31
+u16 // c32a
+  // c32b
+MsgType , // c34a
+  // c34b
+u8 BodyLen // c36a
+  // c36b
+@lengthOf(
+    // c37
+Body
+    // c38
+) , // c40a
+  // c40b
+u8 // c41a
+  // c41b
+flags // c42a
+  // c42b
+, Logon // c44a
+  // c44b
+Body
+    // c45
+, // c46a
+  // c46b
+u32 // c47a
+  // c47b
+trailer // c48a
+  // c48b
+, // c49a
+  // c49b
+} // c50a
+  // c50b
+")).
+Eval vm_compute in ("<<<M1780>>>" ++ check (runes_of_ascii "packet tag {
+    @calculatedFrom(""x y"")
+    lengthOf {
+        options1 `
+        `,
+    },
+    @tag(7)
+    int {
+        //x
+        // " ++ [27880; 37322]%N ++ runes_of_ascii "
+        char[007] calculatedFrom @lengthOf(metadata),
+        tag @lengthOf(falsey),
+        f32 calculatedFrom `{ , }`,
+        i8i8 {
+            string i64_ @lengthOf(asx) `it's`,
+            u @calculatedFrom(""\n""),
+        },
+    },
+    @calculatedFrom(""abc"")
+    @leftPad(' ')
+    uint64 calculatedFrom,// " ++ [27880; 37322]%N ++ runes_of_ascii "
+}
+
+packet o {
+    Header,
+    @lengthOf(i8i8)
+    float32 Pad,
+    char[42] leftPad @calculatedFrom(""""),
+    @tag(255)
+    body u,
+}
+
+packet lengthOf {
+    // packet A { u8 x, }
+    // c
+    @tag(255)
+    char[0123456789] o `
+    `,
+}")).
+Eval vm_compute in ("<<<M247>>>" ++ check (runes_of_ascii "
+options { leftPad // packet A { u8 x, }
+= 0
+;
+    //
+    Logon
+    =
+char // `tick` ""quote"" 'q'
+i64_ = '\x00'
+; }
+options { crc =
+i32	; matchKey =
+255
+    leftPad = ' ' ; metadata= 42// trailing space 
+; packetx =10
+    }
+root packet//
+A { @calculatedFrom( ""x y"" // c
+)/// triple
+zchar[ 00]
+f32a, @tag(
+255 )
+    zchar[
+0123456789 ]	a1
+@lengthOf(As )`" ++ [28040; 24687; 31867; 22411]%N ++ runes_of_ascii "`
+    /// triple
+    , int16 body, // `tick` ""quote"" 'q'
+uint64
+x
+@calculatedFrom(""1""
+//	t
+// " ++ [128512]%N ++ runes_of_ascii " emoji
+) // packet A { u8 x, }
+`line1
+line2` ,@lengthOf( Logon )char[
+    0// packet A { u8 x, }
+]float@calculatedFrom(
+""abc"" ) ,
+} MetaData u128 { }
+")).
+Eval vm_compute in ("<<<M1366>>>" ++ check (runes_of_ascii "
+options {
+
+    StringPrefixLenType	= u8
+	;
+ArrayPrefixLenType	= u8  ; FixedStringPadFromLeft
+    =
+    false ;
+FixedStringPadChar
+=
+    ' '
+;
+    }
+
+packet Ack
+	{ char[] 
+tag7 ,}
 
     packet
-	Logon
-    {
-
-    @leftPad(
-	'0'
-) 
-char[ 
-10
-
-    ]
-UserName `" ++ [29992; 25143; 21517]%N ++ runes_of_ascii "` ,string 
-Password
-`" ++ [23494; 30721]%N ++ runes_of_ascii "`
-    ,
-
-uint64
-    ClientId`" ++ [23458; 25143; 31471]%N ++ runes_of_ascii "ID`
-, 
-u16 
-HeartbeatInterval
-
-`" ++ [24515; 36339; 38388; 38548]%N ++ runes_of_ascii "`	, } 
-packet Logout	{ @rightPad  (
-'0' 
-)
-char[	10] UserName `" ++ [29992; 25143; 21517]%N ++ runes_of_ascii "` ,	uint64
-
-ClientId
-
-`" ++ [23458; 25143; 31471]%N ++ runes_of_ascii "ID` , }packet  Heartbeat {
-}
-    packet  RiskControlRequest
-{
-	string
-
-    UniqueOrderId `" ++ [21807; 19968; 35746; 21333; 21495]%N ++ runes_of_ascii "`,char[ 
-16
-	]
-	ClOrdID
-	`" ++ [23458; 25143; 35746; 21333; 21495]%N ++ runes_of_ascii "` 
-,	char[
-
-    3
-    ]
-
-MarketID
-	`" ++ [24066; 22330]%N ++ runes_of_ascii "id`
-,
-char[12]
-
-    SecurityID
-    `" ++ [35777; 21048; 20195; 30721]%N ++ runes_of_ascii "`, char
-    Side
-    `" ++ [20080; 21334; 26041; 21521]%N ++ runes_of_ascii "` ,
-
-char
-OrderType
-	`" ++ [35746; 21333; 31867; 22411]%N ++ runes_of_ascii "`  ,  u64
-
-    Price 
-`" ++ [20215; 26684]%N ++ runes_of_ascii "`
-
-    ,u32 Qty
-	`" ++ [25968; 37327]%N ++ runes_of_ascii "`,
-repeat 
-string
-ExtraInfo 
-`" ++ [38468; 21152; 20449; 24687]%N ++ runes_of_ascii "`  ,  repeat
-    SubOrder  {	char[ 16
-
-    ] 
-ClOrdID	`" ++ [23376; 35746; 21333; 21495]%N ++ runes_of_ascii "` 
-, 
-u64
-Price
-`" ++ [23376; 35746; 21333; 20215; 26684]%N ++ runes_of_ascii "`, u32
-Qty 
-`" ++ [23376; 35746; 21333; 25968; 37327]%N ++ runes_of_ascii "`
-	, }
-
-    ,
-
-}
-packet
-
-    RiskControlResponse
-{
-
-    string
-
-    UniqueOrderId `" ++ [21807; 19968; 35746; 21333; 21495]%N ++ runes_of_ascii "`  , 
-i32 Status `" ++ [29366; 24577]%N ++ runes_of_ascii "`, string Msg
-`" ++ [32467; 26524; 20449; 24687]%N ++ runes_of_ascii "`
-,
-
-repeat Detail
-    , }
-
-packet
-	Detail {
-
-string
-
-RuleName
-
-`" ++ [35268; 21017; 21517; 31216]%N ++ runes_of_ascii "`
-    ,  u16 Code `" ++ [21407; 22240; 20195; 30721]%N ++ runes_of_ascii "`
-
-,} ")).
-Eval vm_compute in ("<<<M1602>>>" ++ check (runes_of_ascii "packet
-
-    i8i8
-
-    {
-
-@tag(
-0  )
-
-int32 
-leftPad
-
-`it's`,	repeat
-char[] Header
-
-`crlf
-line` ,@calculatedFrom(
-""\" ++ [233]%N ++ runes_of_ascii """
-	)  /// triple
-  repeat
-    uint8 float  , 
-@rightPad
-
-    ('\x00' )char[]
-    zchar  @lengthOf(
-    // a // b
-      //x
-leftPad  ) `
-`
-,
-
-Z9_
-
-, @lengthOf( x
-
-) match  As
-
-    as tag {
-
-""a	b"" 
-: string_ 
-[
-
-    10
-,  7 , 
-""1"" 
-, 
-255	,
-    3
-    ,	42
-,
-        //
-	0123456789
-,	""" ++ [128512]%N ++ runes_of_ascii """
-] :  x_y_z ,
-
-    ""CRC32""
-    :  Z9_
-    ,
-00 
-    // c
-: Logon
-
-,	},
-
-@tag(007
-
-)
-
-    o	{
-    char
-Packet
-    @lengthOf(
-//	t
-  repeatCount
-    )
-,
-
-    } 
-, @lengthOf(  
-      // " ++ [27880; 37322]%N ++ runes_of_ascii "
-    /// triple
-  pack
-	) 
-float64
-rootA`two words`
-
-,
-
+Reject
+	{
+	InSym61 { 
 repeat
+Ack ,zchar[
+4
+	]
+f1
+	,	}	,	}
 
-    char[] BodyLength 
-,}  packet
-	Z9_{
-    match 
-    // packet A { u8 x, }
-  As 
-as a1  {	//
+packet 
+Logout 
+{
+    char[
 
-  0:  trueish// `tick` ""quote"" 'q'
+4 ]clOrdID
 
 ,}
 
+root  packet
+	Cancel  { @leftPad
+( ' '	)
+
+char[  10	]
+price,u8 x
+
     ,
-    /// triple
-      // " ++ [27880; 37322]%N ++ runes_of_ascii "
-    }
-root
+	u32 venue
 
-packet u8x  {
-        /// triple
-	  // " ++ [128512]%N ++ runes_of_ascii " emoji
-	repeat
-	string	Logon 
-`tab	here`  ,// " ++ [128512]%N ++ runes_of_ascii " emoji
-	} options {
-_x
-    = 
-""packet""
-
-;  f32a=
-    007 
-}packet
-
-i8i8 
-{
-@calculatedFrom( ""CRC32""
-
-    )A
-	@lengthOf(
-a1)
-	, } ")).
-Eval vm_compute in ("<<<M1329>>>" ++ check (runes_of_ascii "options {
-    FixedStringPadFromLeft = true;
-    FixedStringPadChar = '0';
-}
-packet Leg {
-    InPrice0 {
-        repeat string clOrdID,
-        int16 msgKind,
-        zchar[5] Px,
-    },
-    i16 f1,
-    repeat f64 Side2,
-    string Acct,
-}
-packet Cancel {
-    zchar[4] clOrdID,
-    string seqNo,
-    Leg,
-    @leftPad('0') char[11] OrderId,
-}
-packet Quote {
-    repeat char[4] sym,
-    f64 OrderId,
-    repeat Leg,
-    repeat i64 f1,
-    int16 Note,
-    zchar[3] count,
-}
-root packet Ack {
-    @leftPad(' ') char[10] sym,
-    InPx60 {
-        Cancel,
-        repeat char[1] f1,
-        string Tail,
-        repeat InNote55 {
-            int8 count,
-            f64 f1,
-            repeat Cancel,
-        },
-        char[] tag7,
-        repeat string msgKind,
-    },
-    u8 lastPx,
-    match lastPx as Body {
-        152 : Quote,
-        173 : Cancel,
-        4 : Leg,
-    },
-    u16 Ref @calculatedFrom(""CRC32""),
-}
-")).
-Eval vm_compute in ("<<<M237>>>" ++ check (runes_of_ascii "root
-    packet
-    asx { // `tick` ""quote"" 'q'
-f32a	,
-@calculatedFrom(
-""abc"") zchar[ 65535 ]	metadata `
-` , @calculatedFrom(// " ++ [128512]%N ++ runes_of_ascii " emoji
-""CRC32"" // `tick` ""quote"" 'q'
-) Header `doc`
-    // @lengthOf(
-    , match
-f32a as
-msg_type
-// @lengthOf(
-//x
-{ [ ""\n"" ] /// triple
-:
-charz// @lengthOf(
-0123456789 :
-pack
-    // `tick` ""quote"" 'q'
-    ,//x
-[ ""packet"" , """",
-    // @lengthOf(
-    ""`tick`"" ,
-    ""CRC32"" , ""\n"" ,
-// `tick` ""quote"" 'q'
-// trailing space 
-""it's""//	t
-,
-""it's"", //
-4294967296 ]
-:
-charz
-42
-    : leftPad , [
-255 ,	7 , ""packet"" , // trailing space 
-""{,}""
-    , ""\" ++ [233]%N ++ runes_of_ascii """ ,""1""
-    ,	""1""  ] : msg_type
-,
-    [ """ ++ [128512]%N ++ runes_of_ascii """
-    ]:  i64_ } ,  }packet body { } root packet i64_
-    { uint16  Header @calculatedFrom(
-""" ++ [233]%N ++ runes_of_ascii "t" ++ [233]%N ++ runes_of_ascii """ )
-    ``
-    ,float64 string_@calculatedFrom( // a // b
-""`tick`"") , repeat zchar[ // @lengthOf(
-1] packetx`it's` ,
-} //	t")).
-Eval vm_compute in ("<<<M1490>>>" ++ check (runes_of_ascii "//x
-  	packet
-
-x {
-
-    @lengthOf(	string_
-	)
-
-    // `tick` ""quote"" 'q'
-    // trailing space 
-msg_type{ int  // a // b
-  @lengthOf( chars )
-        //x
-  // " ++ [27880; 37322]%N ++ runes_of_ascii "
-    `" ++ [28040; 24687; 31867; 22411]%N ++ runes_of_ascii "`
-    ,int
-	`a\` 
-, }
-, uint32
-	chars
-@calculatedFrom( ""`tick`"" )
-
-    `
-` ,
-@lengthOf( packetx 	 // trailing space 
+    @lengthOf(
+    Body
 )
-	match
+
+,
+match
+	x as Body 
+{
+    [
+	92,
+
+175
+
+]:
+	Logout
+
+,26
+
+: Reject 
+, 144 :Ack
+
+, }
+,u16
+
+    count
+	@calculatedFrom( ""CRC32""
+
+),
+} ")).
+Eval vm_compute in ("<<<M1420>>>" ++ check (runes_of_ascii "// top
+
+MetaData
+    // c0
+
+  uint8x 
+    // c1
+{ 
+// c2
+    char[] 
+        // c3
+	f32a 
+	// c4
+		`// not a comment`
+
+    // c5
+
+,  
+      // c6
+  float32
+        // c7
+  roots 
+    // c8
+    ,
+
+// c9
+	  char[ 
+	// c10
+  7 
+	    // c11
+] 
+        // c12
+    u8x 
+    // c13
+, 
+    // c14
+		zchar[ 
+// c15
+		10
+
+// c16
+
+	]
+    // c17
+	f32a  
+      // c18
+    , 
+  // c19
+  u64 
+
+// c20
+  pack 
+
+// c21
+, 
+
+// c22
+u16 
+  // c23
+  pack
+
+    // c24
+, 
+    // c25
+}
+        // c26")).
+Eval vm_compute in ("<<<M1594>>>" ++ check (runes_of_ascii "
+
+  MetaData  T { a1
+
+Packet,	// " ++ [128512]%N ++ runes_of_ascii " emoji
+uint8x
+
+    // @lengthOf(
+    	//x
+
+Pad`" ++ [233]%N ++ runes_of_ascii "`,
+
+a1 
+    // " ++ [27880; 37322]%N ++ runes_of_ascii "
+  	MetaDataX  ,
+zchar[
+    00	]
 
     metadata
-as
-x_y_z
-    {
-65535	:	x ,
-007
-    // `tick` ""quote"" 'q'
-		// " ++ [128512]%N ++ runes_of_ascii " emoji
-    : u
-[ 7 ,
-""// no comment"",""" ++ [28040; 24687]%N ++ runes_of_ascii """	] 
-:
-x ""a\\""
-	:
-MetaDataX 
-, 0123456789
-    :lengthOf
-10
-    :  
-  //
-    // `tick` ""quote"" 'q'
-float  } ,  u16
-
-    Logon
-
-    @calculatedFrom(
-	""x y""
-	)
-`tab	here` 
-    //	t
-    //
-      ,@lengthOf( 
-Foo
-) zchar	/// triple
-  , }	packet  tag{  }
-root	packet
-    x_y_z
-    { } MetaData
-
-    int
-
-{ string
-
-A 
-`" ++ [233]%N ++ runes_of_ascii "` ,
-}
-")).
-Eval vm_compute in ("<<<M1354>>>" ++ check (runes_of_ascii "options {
-    StringPrefixLenType = u8;
-    ArrayPrefixLenType = u32;
-    FixedStringPadFromLeft = true;
-    FixedStringPadChar = ' ';
-}
-packet Leg {
-}
-packet Heartbeat {
-    zchar[6] msgKind,
-    @rightPad('0') char[3] Qty,
-    zchar[9] Side2,
-    i8 Acct,
-}
-packet Logout {
-    int8 x,
-}
-packet Order {
-    char[] Acct,
-    zchar[8] count,
-    u32 OrderId,
-    uint8 lastPx,
-    u16 clOrdID,
-    zchar[7] Note,
-}
-root packet Reject {
-    @leftPad(' ') char[8] Side2,
-    i8 clOrdID,
-    repeat f32 x,
-    u32 lastPx,
-    match lastPx as Body {
-        [30, 147] : Heartbeat,
-        134 : Leg,
-        183 : Logout,
-        40 : Order,
-    },
-    u16 Ref @calculatedFrom(""CR\
-C32""),
-}
-")).
-Eval vm_compute in ("<<<M1853>>>" ++ check (runes_of_ascii "  // top
-  packet  // c0
-	A { u8 
-    // c3
-
-  a
-,	// c5a
-// c5b
-  } // c6
-  packet 
-// c7
-		B
-
-{// c9a
-// c9b
-    	u16// c10a
-	// c10b
-b	// c11
-    	, // c12
-  }
-	    // c13
-	  root
-packet // c15a
-    // c15b
-
-	P 
-{ 	 // c17
-
-  u8	// c18
-    K	// c19
-
-	,// c20
-	match	// c21
-    K	// c22
-		as// c23
-  	M 	 // c24a
-// c24b
-{ 
-	// c25
-
-  [  // c26
-  1
-	    // c27
-    , 
-
-// c28
-  2	// c29a
-    // c29b
-]	// c30a
-	  // c30b
-: 	 // c31a
-    	// c31b
-
-A // c32a
-	// c32b
-
+    `u8 x,` 
 ,
-	3
-    // c34
-:	// c35
-B 	 // c36a
-  // c36b
-    	, 7	// c38
-    : // c39a
-// c39b
-  A// c40
-    , 	 // c41
-} , 
-// c43
+	Pad// trailing space 
+  x
+
+`
+`  ,i8 
+u8x
+,
+}  options	{  As 
+=
+
+    false  ; }	root
+
+packet options1
+    {
+	@calculatedFrom(""// no comment"" )
+@lengthOf( _x
+	)
+    @tag(
+	007
+)repeat
+// trailing space 
+
+// @lengthOf(
+  f32
+i8i8`" ++ [233]%N ++ runes_of_ascii "` , @rightPad  ( ' ' // " ++ [27880; 37322]%N ++ runes_of_ascii "
+
+)  repeat Pad
+,
+
+    }")).
+Eval vm_compute in ("<<<M1459>>>" ++ check (runes_of_ascii "options {
+}
+
+packet charz {
+    @rightPad(' ')
+    @calculatedFrom(""a\\"")
+    repeat int crc `two words`,
+    string stringy @calculatedFrom(""a	b"") `// not a comment`,//
+    char i8i8,
+}
+
+MetaData crc {
+    // `tick` ""quote"" 'q'
+    crc i64_ `{ , }`,
+    // `tick` ""quote"" 'q'
+    i32 u128,// packet A { u8 x, }
+    BodyLength Header,
+    char[0123456789] Packet `u8 x,`,
+    uint8 repeatCount,//	t
+}")).
+Eval vm_compute in ("<<<M1929>>>" ++ check (runes_of_ascii "options
+{ LittleEndian	=true  ;
+	}
+
+packet 
+Logon {  u8 x  ,
+    }
+    packet
+	Logout
+    {
+
+u16 reason
+,
+	}
+
+    root
+	packet
+
+    Frame  {
+
+u64
+
+    Kind
+
+    ,
+	u64
+	Kind2
+
+    ,
+	match Kind
+as
+
+    Body {
+
+1	:Logon
+,[
+    2
+	, 3 
+, 
+4 ]
+:Logout ,
+
+    100:
+	Logon
+,
+},  match
+    Kind2 as
+
+    Trailer  {
+    0
+
+    : Logout
+,
 } 
-  // c44
- 
-")).
-Eval vm_compute in ("<<<M1336>>>" ++ check (runes_of_ascii "options {
-    LittleEndian = false;
-    ArrayPrefixLenType = u8;
-    FixedStringPadFromLeft = true;
-    FixedStringPadChar = '0';
-}
-packet Heartbeat {
-    string lastPx,
-    uint8 Qty,
-    i64 Acct,
-    char[4] Ref,
-}
-packet Fill {
-    uint8 Ref,
-    Heartbeat,
-    f32 OrderId,
-    repeat f32 x,
-}
-root packet Order {
-    zchar[2] OrderId,
-    zchar[2] Acct,
-    zchar[1] Note,
-    zchar[9] Qty,
-    string price,
-    string tag7,
-    u32 x,
-    match x as Body {
-        123 : Fill,
-        112 : Heartbeat,
-    },
-    u32 seqNo @calculatedFrom(""CR\
-C32""),
-}
-")).
-Eval vm_compute in ("<<<M1119>>>" ++ check (runes_of_ascii "// top
-root // c0
-packet // c1
-_x // c2
-{ // c3
-match // c4
-Foo // c5
-as // c6
-Z9_ // c7
-{ // c8
-""a	b"" // c9
-: // c10
-Pad // c11
-, // c12
-} // c13
-, // c14
-repeat // c15
-x // c16
-`line1
-line2` // c17
-, // c18
-@rightPad // c19
-( // c20
-' ' // c21
-) // c22
-@calculatedFrom( // c23
-""a\\"" // c24
-) // c25
-metadata // c26
-MetaDataX // c27
-, // c28
-@tag( // c29
-0 // c30
-) // c31
-Logon // c32
-int // c33
-`` // c34
-, // c35
-} // c36
-options // c37
-{ // c38
-T // c39
-= // c40
-'\x00' // c41
-} // c42
-")).
-Eval vm_compute in ("<<<M140>>>" ++ check (runes_of_ascii "
-root packet int{	repeat
-    float tag , char[] roots
-, @lengthOf( repeatCount ) @lengthOf( // packet A { u8 x, }
-rootA)
-uint16 o
-    `tab	here` ,
-    //	t
-    i16 Pad `line1
-line2` , Pad{match Pad as
-    _x
-{ [00]
-:
-    Z9_
-, } ,} , repeat zchar calculatedFrom`a\` ,	f64 // @lengthOf(
-charz
-    //x
-    ,Pad
-    Foo,@calculatedFrom(
-    """ ++ [28040; 24687]%N ++ runes_of_ascii """ )
-    charz
-    @lengthOf( charz ), @lengthOf(
-    rootA ) match o
-as body {00 :
-x_y_z// " ++ [128512]%N ++ runes_of_ascii " emoji
-} ,}
-")).
-Eval vm_compute in ("<<<M1236>>>" ++ check (runes_of_ascii "// top
-options // c0a
-  // c0b
-{ f32a
-    // c2
-= // c3
-0 } // c5
-packet trueish // c7a
-  // c7b
-{ // c8
-}
-    // c9
-MetaData _x // c11
-{ char[ // c13a
-  // c13b
-0123456789 // c14
-] // c15a
-  // c15b
-zchar
-    // c16
-, // c17a
-  // c17b
-string // c18
-crc ,
-    // c20
-char[
-    // c21
-1 ] // c23a
-  // c23b
-options1
-    // c24
-, uint8 // c26a
-  // c26b
-repeatCount
-    // c27
-, // c28
-} // c29
-")).
-Eval vm_compute in ("<<<M15>>>" ++ check (runes_of_ascii "MetaData // c
-u128{
-    }MetaData
-    a1 {
-}
-    root packet	o {	char[
-10 ]  stringy @lengthOf( Z9_) ,
-match
-x_y_z as stringy
-{	3
-: float ,
-    } , @leftPad //	t
-( ' '
-    ) u128 {	repeat i32 msg_type `crlf
-line` , x	, repeat char[	65535
-] T, match
-    A as
-i8i8 { """ ++ [128512]%N ++ runes_of_ascii """ : Logon
-, } //
-, } ,
-@rightPad (  '\x00') repeat x_y_z options1 `two words` , }
-")).
-Eval vm_compute in ("<<<M1810>>>" ++ check (runes_of_ascii "// top
-options {
-    // c1a
-    // c1b
-    zchar = true;
-    Pad = char[00]
-    // c10
-    a1 = uint32// c13a
-    // c13b
-    BodyLength = true;
+,}")).
+Eval vm_compute in ("<<<M1896>>>" ++ check (runes_of_ascii "packet a1 {
+    @leftPad()
+    float @lengthOf(uint8x),
 }
 
-root packet T {
-    @lengthOf(repeatCount)
-    @tag(1)
-    @calculatedFrom(""a	b"")
-    // c31a
-    // c31b
-    string stringy @calculatedFrom(""\n"") `u8 x,`,// c38
-}// c39")).
-Eval vm_compute in ("<<<M1481>>>" ++ check (runes_of_ascii "MetaData BodyLength{
-
-    uint16
-leftPad`" ++ [233]%N ++ runes_of_ascii "`	// a // b
-
-  ,
-    uint8x
-    asx
-    , len
-
-    lengthOf	`// not a comment`
-, string
-uint8x 
-`doc` ,
-}  options
-	{
-
-i8i8
-	=
-0 lengthOf=
-0123456789
-
-; }packet
-	uint8x {
-    @lengthOf( pack)	float64
-	u8x @lengthOf( 
-asx 	 //x
-	) ,
-} ")).
-Eval vm_compute in ("<<<M1370>>>" ++ check (runes_of_ascii "options {
-    LittleEndian = true;
-}
 packet Logon {
-    u8 x,
-    string user,
+    char Logon @calculatedFrom(""a\\""),
+    T stringy,
+    //
+    // c
+    repeat uint8 stringy `two words`,
 }
-packet Logout {
-    u16 reason,
+
+MetaData charz {
+    u tag `
+    `,
+    a1 falsey,//x
+    Z9_ matchKey,
+    f64 lengthOf `a\`,
+    f32a roots ``,
+    float64 x_y_z,
+}")).
+Eval vm_compute in ("<<<M89>>>" ++ check (runes_of_ascii "packet Foo // " ++ [128512]%N ++ runes_of_ascii " emoji
+{@lengthOf( f32a )
+char[
+0123456789 //	t
+] float `u8 x,` ,}
+    packet // a // b
+i64_ {@lengthOf(stringy // packet A { u8 x, }
+)
+    char[] int @calculatedFrom(""{,}"" ) ,@tag(
+007 ) //
+int64
+stringy`" ++ [233]%N ++ runes_of_ascii "` ,  char[]A @calculatedFrom(
+""\" ++ [233]%N ++ runes_of_ascii """
+    )	`doc` ,// " ++ [27880; 37322]%N ++ runes_of_ascii "
 }
-packet Empty {
-}
-root packet Frame {
-    u16 MsgType,
-    u8 BodyLen @lengthOf(Body),
-    u8 flags,
-    Logon Body,
-    u32 trailer,
-}
+")).
+Eval vm_compute in ("<<<M202>>>" ++ check (runes_of_ascii "packet Z9_
+    { @calculatedFrom( ""packet"") char //
+BodyLength , match chars as falsey {[65535,
+    // c
+    """ ++ [128512]%N ++ runes_of_ascii """ ,""" ++ [28040; 24687]%N ++ runes_of_ascii """ , ""`tick`""  , 10,
+    ""a\\"" ,""a\""b"" // @lengthOf(
+]: repeatCount , ""x y"" :chars , // " ++ [128512]%N ++ runes_of_ascii " emoji
+65535
+://x
+calculatedFrom , } , }
 ")).
 Eval vm_compute in ("<<<M364>>>" ++ check (runes_of_ascii "packet  _x
 { repeat char[] matchKey// " ++ [128512]%N ++ runes_of_ascii " emoji
@@ -836,49 +860,47 @@ T , Pad
 }	packet MetaDataX {
 float64 body, }
 ")).
-Eval vm_compute in ("<<<M38>>>" ++ check (runes_of_ascii "options
-{ falsey
-    /// triple
-    = false ; falsey=
-    //
-    int16// `tick` ""quote"" 'q'
-;
-    // `tick` ""quote"" 'q'
-    A =
-    // trailing space 
-    u32  ;
-    trueish	= 1  ;
-    }
-")).
-Eval vm_compute in ("<<<M1695>>>" ++ check (runes_of_ascii "packet A {
-    match k as n {
-        [
-            007, 66, 9, ""a"", ""bb"",
-            ""d"", ""e"", ""g"", ""h"", ""j"",
-            ""k""
-        ] : B,
-        2 : C,
+Eval vm_compute in ("<<<M1509>>>" ++ check (runes_of_ascii "packet A {
+    Inner {
+        match k as n {
+            [
+                1, 22, 007, 4, 5,
+                66, 7, 8, 9, 10,
+                11, 12
+            ] : B,
+        },
     },
 }")).
-Eval vm_compute in ("<<<M461>>>" ++ check (runes_of_ascii "packet uint8x
-{ match pack
-    as msg_type	{
-    0123456789 :	float
+Eval vm_compute in ("<<<M191>>>" ++ check (runes_of_ascii "options
+{ Logon
+=char[	00
+]
+;
+zchar
+    = false Logon =	i8
+    ;}options { asx = '0' int = ""\" ++ [233]%N ++ runes_of_ascii """  calculatedFrom= '\x00'// packet A { u8 x, }
+; // `tick` ""quote"" 'q'
 }
-,
-} packet packet //	t
-a1
-    { } options {packetx
-    = '\x00'	; u128= ""a	b""  ; }
 ")).
-Eval vm_compute in ("<<<M543>>>" ++ check (runes_of_ascii "packet uint8x
-{ mat'1'ch pack
-    as msg_type	{
+Eval vm_compute in ("<<<M418>>>" ++ check (runes_of_ascii "packet uint8x
+{ match pack
+    @rightPad msg_type	{
     0123456789 :	float
 }
 ,
 } packet //	t
 a1
+    { } options {packetx
+    = '\x00'	; u128= ""a	b""  ; }
+")).
+Eval vm_compute in ("<<<M552>>>" ++ check (runes_of_ascii "packet uint8x
+{ match pack
+    as msg_type	{
+    0123456789 :	float
+}
+,
+} packet //	t
+na" ++ [239]%N ++ runes_of_ascii "ve
     { } options {packetx
     = '\x00'	; u128= ""a	b""  ; }
 ")).
@@ -893,7 +915,7 @@ a1
     { } options {packetx
     = '\x00'	/; u128= ""a	b""  ; }
 ")).
-Eval vm_compute in ("<<<M473>>>" ++ check (runes_of_ascii "packet uint8x
+Eval vm_compute in ("<<<M477>>>" ++ check (runes_of_ascii "packet uint8x
 { match pack
     as msg_type	{
     0123456789 :	float
@@ -901,10 +923,18 @@ Eval vm_compute in ("<<<M473>>>" ++ check (runes_of_ascii "packet uint8x
 ,
 } packet //	t
 a1
-    ] } options {packetx
+    { options } {packetx
     = '\x00'	; u128= ""a	b""  ; }
 ")).
-Eval vm_compute in ("<<<M530>>>" ++ check (runes_of_ascii "packet uint8x
+Eval vm_compute in ("<<<M676>>>" ++ check (runes_of_ascii "// @lengthOf(
+packet i8i8 { u128 o , }
+options { MetaDataX = true;
+    BodyLength =""packet"" x_y_z x_y_z= 007
+crc //x
+= ""abc"" ;
+    msg_type =
+i16 }")).
+Eval vm_compute in ("<<<M520>>>" ++ check (runes_of_ascii "packet uint8x
 { match pack
     as msg_type	{
     0123456789 :	float
@@ -913,20 +943,9 @@ Eval vm_compute in ("<<<M530>>>" ++ check (runes_of_ascii "packet uint8x
 } packet //	t
 a1
     { } options {packetx
-    = '\x00'	; u128= ""a	b""  ; 
+    = '\x00'	; u128=   ; }
 ")).
-Eval vm_compute in ("<<<M440>>>" ++ check (runes_of_ascii "packet uint8x
-{ match pack
-    as msg_type	{
-    0123456789 :	
-}
-,
-} packet //	t
-a1
-    { } options {packetx
-    = '\x00'	; u128= ""a	b""  ; }
-")).
-Eval vm_compute in ("<<<M480>>>" ++ check (runes_of_ascii "packet uint8x
+Eval vm_compute in ("<<<M529>>>" ++ check (runes_of_ascii "packet uint8x
 { match pack
     as msg_type	{
     0123456789 :	float
@@ -934,9 +953,8 @@ Eval vm_compute in ("<<<M480>>>" ++ check (runes_of_ascii "packet uint8x
 ,
 } packet //	t
 a1
-    { }  {packetx
-    = '\x00'	; u128= ""a	b""  ; }
-")).
+    { } options {packetx
+    = '\x00'	; u128= ""a	b""")).
 Eval vm_compute in ("<<<M646>>>" ++ check (runes_of_ascii "// @lengthOf(
 packet i8i8 { u128 o , }
 options { MetaDataX = true;
@@ -945,192 +963,220 @@ crc //x
 = ""abc"" ;
     msg_type =
 i16 }")).
-Eval vm_compute in ("<<<M649>>>" ++ check (runes_of_ascii "// @lengthOf(
-packet i8i8 { u128 o , }
-options {  = true;
-    BodyLength =""packet"" x_y_z= 007
-crc //x
-= ""abc"" ;
-    msg_type =
-i16 }")).
-Eval vm_compute in ("<<<M1755>>>" ++ check (runes_of_ascii "packet A {
-    u16 len @lengthOf(body) `a
-    
-    b`,
-    u32 crc @calculatedFrom(""CRC32"") `a
-    
-    b`,
-    string body,
-}")).
-Eval vm_compute in ("<<<M1145>>>" ++ check (runes_of_ascii "MetaData leftPad // c
-{ chars MetaDataX , } packet repeatCount { char[ 255 ] uint8x `" ++ [233]%N ++ runes_of_ascii "` , } MetaData pack { As Foo , }")).
-Eval vm_compute in ("<<<M1177>>>" ++ check (runes_of_ascii "MetaData leftPad { chars MetaDataX , } packet repeatCount { char[ 255 ] uint8x `" ++ [233]%N ++ runes_of_ascii "` , } MetaData // c
-pack { As Foo , }")).
-Eval vm_compute in ("<<<M1761>>>" ++ check (runes_of_ascii "packet A {
-    u16 len @lengthOf(body) `x
-    `,
-    u32 crc @calculatedFrom(""CRC32"") `x
-    `,
-    string body,
-}")).
-Eval vm_compute in ("<<<M1885>>>" ++ check (runes_of_ascii "options {
-    falsey = false;
-    falsey = int16;
-    // `tick` ""quote"" 'q'
-    A = u32;
-    trueish = 1;
-}")).
-Eval vm_compute in ("<<<M353>>>" ++ check (runes_of_ascii "options { _x
-    =
-    ""`tick`""	;matchKey=
-""it's""
-;	options1
-    = u16 ; stringy= true
-    // c
-    }
-")).
-Eval vm_compute in ("<<<M885>>>" ++ check (runes_of_ascii "packet A {
-  match k as n {
-    [""a"", 22, ""c c"", 4, ""e"", 66, ""g"", 8, ""i"", 10] : B
-    2 : C
-  },
-}")).
-Eval vm_compute in ("<<<M886>>>" ++ check (runes_of_ascii "packet A {
-  match k as n {
-    [1, 22, ""c c"", 4, 5, ""f"", 7, 8, ""i"", 10] : B,
-    2 : C
-  },
-}")).
-Eval vm_compute in ("<<<M608>>>" ++ check (runes_of_ascii "
-packet
-    asx {match u128 as lengthOf
+Eval vm_compute in ("<<<M1458>>>" ++ check (runes_of_ascii "
+packet	A
 {
-//	t
-// `tick` ""quote"" 'q'
-255 : x , ,
-    } ,	}")).
-Eval vm_compute in ("<<<M589>>>" ++ check (runes_of_ascii "
+
+match 
+k as n  {[
+""a"" ,
+
+""bb""
+    ,""c c"" ,""d"" 
+,
+""e"" ,""f""
+
+,
+""g""
+    ,
+
+    ""h"" ,  ""i""
+
+    ] :
+
+B 
+2:
+C
+} ,
+}
+
+")).
+Eval vm_compute in ("<<<M1721>>>" ++ check (runes_of_ascii "// c
+MetaData leftPad {
+    chars MetaDataX,
+}
+
+packet repeatCount {
+    char[255] uint8x `" ++ [233]%N ++ runes_of_ascii "`,
+}
+
+MetaData pack {
+    As Foo,
+}")).
+Eval vm_compute in ("<<<M34>>>" ++ check (runes_of_ascii "options {
+Logon = 0 } options { msg_type = 3
+    MetaDataX =
+    // " ++ [128512]%N ++ runes_of_ascii " emoji
+    int8
+    uint8x=""""
+    ;
+    As = '0' }")).
+Eval vm_compute in ("<<<M1165>>>" ++ check (runes_of_ascii "MetaData leftPad { chars MetaDataX , } packet repeatCount { char[ 255 // c
+] uint8x `" ++ [233]%N ++ runes_of_ascii "` , } MetaData pack { As Foo , }")).
+Eval vm_compute in ("<<<M938>>>" ++ check (runes_of_ascii "packet A {
+    Inner {
+        u8 x `a
+    b
+  c`,
+        Deep {
+            u8 y `a
+    b
+  c`,
+        },
+    },
+}")).
+Eval vm_compute in ("<<<M973>>>" ++ check (runes_of_ascii "packet A {
+    match k as n {
+        ""\
+"" : B,
+        [""\
+"", 1] : C,
+        [1,2,3,4,5,""\
+""] : D,
+    },
+}")).
+Eval vm_compute in ("<<<M1726>>>" ++ check (runes_of_ascii "
 packet
-    asx {match u128 as lengthOf
-255
-//	t
-// `tick` ""quote"" 'q'
-{ : x ,
-    } ,	}")).
-Eval vm_compute in ("<<<M643>>>" ++ check (runes_of_ascii "
+
+A
+	{
+	match
+k
+	as	n 
+{	[1  ,
+
+    ""bb"",  007	,""d""
+
+    , 5 ]:
+
+    B
+    2
+
+:C
+}
+
+, }
+
+")).
+Eval vm_compute in ("<<<M583>>>" ++ check (runes_of_ascii "
 packet
-    asx {match x" ++ [178]%N ++ runes_of_ascii " as lengthOf
+    asx {match u128 as lengthOf lengthOf
 {
 //	t
 // `tick` ""quote"" 'q'
 255 : x ,
     } ,	}")).
-Eval vm_compute in ("<<<M861>>>" ++ check (runes_of_ascii "packet A {
-  match k as n {
-    [1, 22, ""c c"", 4, 5, ""f"", 7, 8] : B
-    2 : C
-  },
-}")).
-Eval vm_compute in ("<<<M1790>>>" ++ check (runes_of_ascii "packet A {
-    match k as n {
-        [1, 22, ""c c""] : B,
-        2 : C,
-    },
-}")).
-Eval vm_compute in ("<<<M817>>>" ++ check (runes_of_ascii "packet A {
-  match k as n {
-    [1, ""bb"", 007, ""d"", 5] : B,
-    2 : C
-  },
-}")).
-Eval vm_compute in ("<<<M1623>>>" ++ check (runes_of_ascii "packet body 
-{ 
-    // c
-      i32
-f32a  `{ , }` 
+Eval vm_compute in ("<<<M1254>>>" ++ check (runes_of_ascii "
+packet
+    Inner {
+    u8 a
+
 ,
-	}
+} root
+	packet P
 
-options
-    {}
+    {  repeat
+    Inner items,	u8 
+x	, } ")).
+Eval vm_compute in ("<<<M474>>>" ++ check (runes_of_ascii "packet uint8x
+{ match pack
+    as msg_type	{
+    0123456789 :	float
+}
+,
+} packet //	t
+a1")).
+Eval vm_compute in ("<<<M1704>>>" ++ check (runes_of_ascii "options
 
+    {}  // " ++ [128512]%N ++ runes_of_ascii " emoji
+      options { float// `tick` ""quote"" 'q'
+  = 65535
+    }
 ")).
-Eval vm_compute in ("<<<M1630>>>" ++ check (runes_of_ascii "packet A
-{
-
-match
-
-    k as n 
-{
-[
-
-    1 
-]	:	B
-    2:
-
-C}
-, }")).
-Eval vm_compute in ("<<<M838>>>" ++ check (runes_of_ascii "packet A { Inner { match k as n { [1,22,007,4,5,66] : B, }, }, }")).
-Eval vm_compute in ("<<<M948>>>" ++ check (runes_of_ascii "packet A {
-    B b `x
-`,
-    B `x
-`,
-    repeat B bs `x
-`,
+Eval vm_compute in ("<<<M857>>>" ++ check (runes_of_ascii "packet A {
+  match k as n {
+    [1, ""bb"", 007, ""d"", 5, ""f"", 7, ""h""] : B
+    2 : C
+  },
 }")).
-Eval vm_compute in ("<<<M148>>>" ++ check (runes_of_ascii "options
-{
-    a1	=""packet""// a // b
-; } // @lengthOf(")).
-Eval vm_compute in ("<<<M1211>>>" ++ check (runes_of_ascii "packet body { i32 f32a `{ , }` , // c
-} options { }")).
-Eval vm_compute in ("<<<M1125>>>" ++ check (runes_of_ascii "// top
-MetaData // c0
-u // c1
-{ // c2
-} // c3
-")).
-Eval vm_compute in ("<<<M933>>>" ++ check (runes_of_ascii "MetaData M {
+Eval vm_compute in ("<<<M390>>>" ++ check (runes_of_ascii "root packet SimpleMessage {
+	uint16 MsgType `" ++ [28040; 24687; 31867; 22411]%N ++ runes_of_ascii "`,
+	string JsonBody `Json" ++ [23383; 31526; 20018; 28040; 24687; 20307]%N ++ runes_of_ascii "`,
+}")).
+Eval vm_compute in ("<<<M853>>>" ++ check (runes_of_ascii "packet A {
+  match k as n {
+    [1, 22, 007, 4, 5, 66, 7, 8] : B
+    2 : C
+  },
+}")).
+Eval vm_compute in ("<<<M743>>>" ++ check (runes_of_ascii "int16 zchar[ } `doc` char u16 uint16 true false u8 msg_type """ ++ [233]%N ++ runes_of_ascii "t" ++ [233]%N ++ runes_of_ascii """ ""a\\"" pack")).
+Eval vm_compute in ("<<<M805>>>" ++ check (runes_of_ascii "packet A {
+  match k as n {
+    [1, ""bb"", 007, ""d""] : B
+    2 : C
+  },
+}")).
+Eval vm_compute in ("<<<M1920>>>" ++ check (runes_of_ascii "
+packet A
+
+{ u8
+    x
+, }// a
+		// b
+		packet
+B { }  // c
+  // d")).
+Eval vm_compute in ("<<<M155>>>" ++ check (runes_of_ascii "options
+{calculatedFrom
+= ""abc""
+;float=i16
+} // trailing space ")).
+Eval vm_compute in ("<<<M1091>>>" ++ check (runes_of_ascii "packet A { @leftPad() char[4] x, @rightPad( ) zchar[2] y, }")).
+Eval vm_compute in ("<<<M1810>>>" ++ check (runes_of_ascii "packet body {
+    i32 f32a `{ , }`,
+}
+
+options {
+}
+// c")).
+Eval vm_compute in ("<<<M1210>>>" ++ check (runes_of_ascii "packet body { i32 f32a `{ , }`
+// c
+, } options { }")).
+Eval vm_compute in ("<<<M1455>>>" ++ check (runes_of_ascii "MetaData _x {
+    i64 u128,
+    Packet Header,
+}")).
+Eval vm_compute in ("<<<M957>>>" ++ check (runes_of_ascii "MetaData M {
     u8 x `
-`,
+x`,
     T t `
-`,
+x`,
 }")).
-Eval vm_compute in ("<<<M964>>>" ++ check (runes_of_ascii "root packet A {
-    u8 x `tab
-	x`,
-}")).
-Eval vm_compute in ("<<<M1439>>>" ++ check (runes_of_ascii "packet A {
-    repeat B b `d`,
-}")).
-Eval vm_compute in ("<<<M1053>>>" ++ check (runes_of_ascii "packet A {
- u8 x `d" ++ [65279]%N ++ runes_of_ascii "`, // c" ++ [65279]%N ++ runes_of_ascii "
-}")).
-Eval vm_compute in ("<<<M1406>>>" ++ check (runes_of_ascii "// c
+Eval vm_compute in ("<<<M1396>>>" ++ check (runes_of_ascii "packet 
+A
 
-MetaData
-tag
-{
+    { 
+u8
+    x`a
+b` ,	}")).
+Eval vm_compute in ("<<<M1394>>>" ++ check (runes_of_ascii "options {
+    metadata = ""a\\"";
+}")).
+Eval vm_compute in ("<<<M978>>>" ++ check (runes_of_ascii "packet A {
+ u8 x `d `, // c 
+}")).
+Eval vm_compute in ("<<<M757>>>" ++ check (runes_of_ascii "z>" ++ [65533]%N ++ runes_of_ascii "*" ++ [65533]%N ++ runes_of_ascii "7" ++ [65533; 65533; 65533; 65533]%N ++ runes_of_ascii "+" ++ [65533]%N ++ runes_of_ascii "~" ++ [65533; 0; 65533; 65533]%N ++ runes_of_ascii "c" ++ [1171]%N ++ runes_of_ascii "n" ++ [65533; 65533; 65533; 12; 65533]%N ++ runes_of_ascii "E>K")).
+Eval vm_compute in ("<<<M380>>>" ++ check (runes_of_ascii "root packet	Packet { }
+")).
+Eval vm_compute in ("<<<M1626>>>" ++ check (runes_of_ascii "// `tick` ""quote"" 'q'")).
+Eval vm_compute in ("<<<M112>>>" ++ check (runes_of_ascii "packet falsey { }
+")).
+Eval vm_compute in ("<<<M1051>>>" ++ check (runes_of_ascii "packet A {
 }
-")).
-Eval vm_compute in ("<<<M1930>>>" ++ check (runes_of_ascii "
-packet  A{ 
-}	// c 	
-")).
-Eval vm_compute in ("<<<M1041>>>" ++ check (runes_of_ascii "packet A {
-}
-// c 	")).
-Eval vm_compute in ("<<<M1011>>>" ++ check (runes_of_ascii "packet A {
-}
-// c" ++ [8232]%N)).
-Eval vm_compute in ("<<<M974>>>" ++ check (runes_of_ascii "packet A {
-}// c ")).
-Eval vm_compute in ("<<<M46>>>" ++ check (runes_of_ascii "//x
-
-// a // b
-")).
-Eval vm_compute in ("<<<M29>>>" ++ check (runes_of_ascii "// " ++ [27880; 37322]%N ++ runes_of_ascii "
-
-")).
-Eval vm_compute in ("<<<M754>>>" ++ check (runes_of_ascii "Y )'")).
+// c" ++ [65279]%N)).
+Eval vm_compute in ("<<<M1082>>>" ++ check (runes_of_ascii "options { // a
+ }")).
+Eval vm_compute in ("<<<M1709>>>" ++ check (runes_of_ascii "MetaData u {
+}")).
+Eval vm_compute in ("<<<M758>>>" ++ check (runes_of_ascii "LE]u'")).
+Eval vm_compute in ("<<<M730>>>" ++ check (runes_of_ascii "//")).
